@@ -85,6 +85,12 @@ func starRing(r *fw.Rand, cx, cy int64, rad int64, m int) []ipt {
 // highest vertex) and optional repeated vertices.  Counter-clockwise, closed.
 func staircase(r *fw.Rand, x0, y0 int64, w int64, steps int, maxH int64) []ipt {
 	xs := map[int64]bool{}
+	if int64(steps) > w-1 {
+		steps = int(w - 1)
+	}
+	if steps < 1 {
+		steps = 1
+	}
 	for len(xs) < steps-1 {
 		xs[1+int64(r.Intn(int(w-1)))] = true
 	}
